@@ -253,6 +253,17 @@ def directed_personas(year, seed, n):
     from hv import statutory as st
     from hv.common import rng_for
     out = list(scen.directed_personas(year, seed, n))
+    # the qualified-dividend worksheet under different filing statuses with the SAME amounts on its lines 1 and 5, solved one after
+    # the other in this process (wages set so that the taxable income coincides): a tax remembered by amount alone serves the
+    # second filer the first one's column.  Lines 22 / 24 are compared with the published schedule of the filer's own status
+    for T_ in ((61250.0, 187300.0) if n <= 3 else (61250.0, 43210.0, 97730.0, 187300.0, 402000.0)):
+        for st_ in ('S', 'HOH', 'MFJ', 'MFS'):
+            sd_ = st.amount('standard_deduction', year, st_)
+            if sd_ is None:
+                continue
+            pq = scen.plain_persona(year, st_, T_ - 5000.0 + float(sd_), key=f'dirsameamt:{st_}:{int(T_)}', deps_ctc=1 if st_ == 'HOH' else 0, n_div=1,
+                                    divs=[{'box_1a': 5000.0, 'box_1b': 3000.0, 'box_2a': 0.0, 'box_4': 0.0, 'box_5': 0.0, 'box_7': 0.0, 'box_16_1': 0.0, 'box_14_1': 'NC', 'belongs_to': 'taxpayer'}])
+            out.append(('F2s', pq))
     if year == 2021:
         # Schedule 8812 line 5 worksheet: families whose line 5 (the 2021 increase) is above the status amount of line 6, with the
         # income walking through the first phase-out in $1,000 steps - "the smaller of line 7 or line 10" is decided by line 7 only there
